@@ -228,8 +228,11 @@ def partition_polynomials(ctx, prefix="C07.R"):
     ref = [poly.var("div_ceil(+1*%s ; +1*%s)" % (T, N)), poly.var("div_floor(+1*%s ; +1*%s)" % (T, N)),
            poly.add(poly.var(T), poly.mul(poly.var("div_floor(+1*%s ; +1*%s)" % (T, N)), poly.var(N)), -1), poly.var(N)]
     names = ["a_large", "a_small", "nb_a_large", "nb_blocks"]
-    tuples = [(blk.i, st) for blk in f.body.blocks if not blk.cleanup for st in blk.stmts
-              if st.k == "assign" and st.lhs == (0, ()) and st.rv.k == "aggr" and st.rv.j.get("ak") == "tuple" and len(st.rv.ops) == 4]
+    # the result tuple: assigned to the return place, or to a local of the return type (the result slot of a helper the tail was moved into)
+    rty_ = f.body.locals[0]["ty"]
+    tuples = [(blk.i, st) for blk in f.body.blocks if not blk.cleanup and blk.cloned_from is None for st in blk.stmts
+              if st.k == "assign" and not st.lhs[1] and (st.lhs[0] == 0 or f.body.locals[st.lhs[0]]["ty"] == rty_) and
+              st.rv.k == "aggr" and st.rv.j.get("ak") == "tuple" and len(st.rv.ops) == 4]
     n = 0
     for bb, st in tuples:
         comps = [sl.expand(sl.x.operand(o)) for o in st.rv.ops]
